@@ -3,10 +3,10 @@ package main
 import (
 	"fmt"
 	"go/constant"
-	"strings"
 	"go/token"
 	"go/types"
 	"sort"
+	"strings"
 
 	"golang.org/x/tools/go/ssa"
 )
@@ -242,9 +242,11 @@ type condFact struct {
 
 // edgeFacts returns the atomic facts known on edge e (handles negation `!x`).
 func edgeFact(e edge) condFact {
-	iff := ifOf(e.from)
-	want := e.succ == 0
-	c := iff.Cond
+	return factOf(ifOf(e.from).Cond, e.succ == 0)
+}
+
+// factOf: the atomic fact "boolean value c is want".
+func factOf(c ssa.Value, want bool) condFact {
 	for {
 		if u, ok := c.(*ssa.UnOp); ok && u.Op == token.NOT {
 			c = u.X
@@ -277,9 +279,48 @@ func localFacts(x *ssa.BasicBlock) []condFact {
 		}
 		for s := 0; s < 2; s++ {
 			if edgeDominates(edge{b, s}, x) {
-				out = append(out, edgeFact(edge{b, s}))
+				out = append(out, expandFact(edgeFact(edge{b, s}), 0)...)
 			}
 		}
+	}
+	return out
+}
+
+// expandFact decomposes a fact about a short-circuit phi (go/ssa materialises `a && b` / `a || b` as a phi of
+// constants and the last operand when the expression is a switch-case condition or is stored): if only one incoming
+// edge can produce the wanted value, control came through that predecessor, so the facts dominating it hold too and
+// the incoming value itself has the wanted value.
+func expandFact(cf condFact, depth int) []condFact {
+	phi, ok := cf.Raw.(*ssa.Phi)
+	if !ok || depth > 3 {
+		return []condFact{cf}
+	}
+	var idx []int
+	for i, e := range phi.Edges {
+		if k, ok := e.(*ssa.Const); ok && k.Value != nil && k.Value.Kind() == constant.Bool {
+			if constant.BoolVal(k.Value) != cf.Want {
+				continue
+			}
+		}
+		idx = append(idx, i)
+	}
+	if len(idx) != 1 {
+		return []condFact{cf}
+	}
+	pred := phi.Block().Preds[idx[0]]
+	out := []condFact{cf}
+	for _, b := range pred.Parent().Blocks {
+		if ifOf(b) == nil {
+			continue
+		}
+		for s := 0; s < 2; s++ {
+			if edgeDominates(edge{b, s}, pred) {
+				out = append(out, expandFact(edgeFact(edge{b, s}), depth+1)...)
+			}
+		}
+	}
+	if _, isConst := phi.Edges[idx[0]].(*ssa.Const); !isConst {
+		out = append(out, expandFact(factOf(phi.Edges[idx[0]], cf.Want), depth+1)...)
 	}
 	return out
 }
@@ -820,8 +861,8 @@ var gp *Prog
 var syncHigherOrder = map[string]bool{
 	"sort.Search": true, "sort.Slice": true, "sort.SliceStable": true, "(*sync.Once).Do": true,
 	"k8s.io/apimachinery/pkg/util/wait.ExponentialBackoff": true,
-	"(*golang.org/x/sync/singleflight.Group).Do":             true,
-	"(*github.com/dgraph-io/badger.Item).Value":              true,
+	"(*golang.org/x/sync/singleflight.Group).Do":           true,
+	"(*github.com/dgraph-io/badger.Item).Value":            true,
 }
 
 // liftSites returns the instructions at which function f is entered, if they are all known and synchronous:
